@@ -178,9 +178,10 @@ package boltz
 //@   ensures result0 == symFT(self, str(rowId)) && str(result1) == symBytes(self, str(rowId)) && (result1 == nil) == symBytesNil(self, str(rowId))
 //@ func (EntitySymbol).GetName
 //@   pure
+//@ spec symStoreOf(sym Int) Int
 //@ func (EntitySymbol).GetStore
 //@   pure
-//@   ensures result != nil
+//@   ensures result != nil && ref(result) == symStoreOf(self)
 //@ func (Store).GetSingularEntityType
 //@   pure
 //@ func (Store).GetEntityType
